@@ -30,6 +30,13 @@ TENSOR_INPLACE_EXEMPT = {"requires_grad_"}
 TENSOR_FIELDS = {"_scale", "_data", "_zeropoint", "weight", "bias", "input_scale", "output_scale", "data", "grad"}
 
 
+RNG_CALLS = {"torch.rand", "torch.randn", "torch.randint", "torch.randperm", "torch.rand_like", "torch.randn_like", "torch.randint_like", "torch.bernoulli", "torch.multinomial",
+             "torch.normal", "torch.poisson", "torch.manual_seed", "torch.seed", "random.random", "random.randint", "random.choice", "random.shuffle", "random.sample", "random.uniform",
+             "np.random.rand", "np.random.randn", "np.random.randint", "np.random.permutation", "np.random.choice", "numpy.random.rand", "numpy.random.permutation",
+             "torch.nn.functional.dropout", "F.dropout"}
+RNG_METHODS = {"uniform_", "normal_", "random_", "bernoulli_", "exponential_", "geometric_", "cauchy_", "log_normal_", "multinomial", "bernoulli"}
+
+
 @dataclass
 class Effect:
     kind: str  # attrstore | substore | inplace | out | setattr | delattr | mutator | global | del
@@ -273,6 +280,11 @@ class EffectGraph:
                         if isinstance(f.value, ast.Name) and f.value.id == own_kw and own_kw not in loc.bind:
                             continue  # the function's own `**kwargs` is a dictionary built for this call: popping from it is local
                         fi.effects.append(Effect("mutator", U(f), loc.roots(f.value), n.lineno, False))
+                # random draws: they read AND advance the global generator - the result is not a function of the arguments and the state of the
+                # process changes (an explicit `generator=` argument confines both to that object)
+                ftxt = U(f)
+                if (ftxt in RNG_CALLS or (isinstance(f, ast.Attribute) and f.attr in RNG_METHODS)) and not any(k.arg == "generator" and not (isinstance(k.value, ast.Constant) and k.value.value is None) for k in n.keywords):
+                    fi.effects.append(Effect("rng", ftxt, {"global:torch.default_generator"}, n.lineno, True))
                 for k in n.keywords:
                     if k.arg == "out":
                         fi.effects.append(Effect("out", U(k.value), loc.roots(k.value), n.lineno, True))
